@@ -3,7 +3,7 @@
        of the http providers exclude each other, one of them is needed, `uris` only with the uri decoder);
    (2) the environment behind ${env:NAME}: a list of NAME=value entries looked up by the exact name. *)
 From Coq Require Import List NArith ZArith Bool QArith Lia.
-From PV Require Import Model.ConfigDecode Proofs.ConfigDecodeProofs.
+From PV Require Import Model.ConfigDecode Proofs.ConfigDecodeProofs Proofs.ConfigDepthProofs.
 Import ListNotations.
 Local Open Scope N_scope.
 
@@ -230,6 +230,49 @@ Proof.
   rewrite Hk1 in Hx1. rewrite Hk2 in Hx2. rewrite Hf1 in Hg1. rewrite Hf2 in Hg2.
   inversion Hg1; inversion Hg2; subst g1 g2 r1 r2.
   cbn [ocond_b]. rewrite Hv1, Hv2, Hs1, Hs2. split; reflexivity.
+Qed.
+
+(* ---------------------------------------------------------------- (3) placeholders that can never be right *)
+Lemma split_hash_none : forall var acc, no_hash var = true -> split_hash acc var = None.
+Proof.
+  induction var as [|c var IH]; intros acc H; [reflexivity|].
+  cbn in H. apply andb_true_iff in H. destruct H as [Hc H]. apply negb_true_iff in Hc.
+  cbn [split_hash]. rewrite Hc. apply IH. exact H.
+Qed.
+
+(* ${property:FILE} without "#KEY" names no property: an error wherever the decoder reaches it *)
+Theorem placeholder_prop_nokey_at : forall p s cur v s' tags d var,
+  reach reg lz uq p [] s cur v = Some (s', tags, d, VStr (ph_tagged s_property var)) ->
+  simple_name var = true -> no_hash var = true ->
+  forall F c, notok (D F s c v).
+Proof.
+  intros. eapply hook_error_at; eauto; [discriminate|].
+  apply hooks_tagged_err; [reflexivity|assumption|].
+  unfold resolve. change (lower s_property) with s_property.
+  change (str_eqb s_property [] || str_eqb s_property s_env) with false.
+  change (str_eqb s_property s_property) with true. cbn match.
+  rewrite split_hash_none by assumption. reflexivity.
+Qed.
+
+(* a placeholder that is the whole value of a position that is not a scalar (a struct, a list, a map, a component):
+   whatever the variable holds, it is an error wherever the decoder reaches it *)
+Definition non_scalar (s : schema) : bool :=
+  match s with SScalar _ => false | _ => true end.
+
+Theorem placeholder_non_scalar_at : forall p s cur v s' tags d name,
+  reach reg lz uq p [] s cur v = Some (s', tags, d, VStr (ph_env name)) ->
+  simple_name name = true -> non_scalar s' = true ->
+  forall F c, notok (D F s c v).
+Proof.
+  intros p s cur v s' tags d name Hr Hn Hs.
+  destruct (env name) as [t|] eqn:He.
+  - eapply hook_error_at; eauto; [discriminate|].
+    unfold hooks. change (ph_env name) with (ph_tagged s_env name).
+    rewrite (inject_tagged_val env prop orc orcq s_env name s' t); [|reflexivity|assumption|].
+    + unfold cast_text. destruct s' as [ | | |k| | | ]; try reflexivity. discriminate.
+    + unfold resolve. change (lower s_env) with s_env.
+      change (str_eqb s_env [] || str_eqb s_env s_env) with true. cbn match. rewrite He. reflexivity.
+  - eapply placeholder_unset_at; eauto.
 Qed.
 
 End Rel.
